@@ -352,7 +352,7 @@ fn execute(ctx: &Ctx, script: &Script, sem: RemoveMoveSemantics) -> RunInfo {
         script,
         sem,
         it,
-        Ops { len: |i| i.len(), is_empty: |i| i.is_empty(), set_mask: |i, m| i.set_mask(m), remove: |i, m| i.remove(m), remove_move: |i, m| i.remove_move(m) },
+        Ops { len: |i| i.len(), is_empty: |i| i.is_empty(), set_mask: |i, m| { let _ = i.set_mask(m); }, remove: |i, m| { let _ = i.remove(m); }, remove_move: |i, m| i.remove_move(m) },
     )
 }
 
